@@ -36,6 +36,7 @@ def inventory(facts):
             continue
         key = "%s(%s)" % (short(fn["patq"]), kind)
         items = []
+        env = triggers.canon_env(fn)
 
         def v(n):
             if n.get("k") == "Call" and n.get("cpat") in th and (n.get("cname") or "").lower().startswith(("check", "validate")):
@@ -46,11 +47,11 @@ def inventory(facts):
                 if "good()" in t or "fail()" in t:
                     return
                 if c.get("k") == "Bin" and c.get("op") in triggers.FLIP:
-                    op, ids, consts, text = triggers.parts(c)
+                    op, ids, consts, text = triggers.parts(c, env)
                     items.append("guard:%s|%s|%s" % (op, ",".join(ids), ",".join(str(x) for x in consts)))
                 else:
                     ids = []
-                    walk(c, lambda x: ids.append(x.get("n") or x.get("f") or x.get("cname")) if x.get("k") in ("Ref", "Member", "Call") else None)
+                    walk(c, lambda x: ids.append((env.get(x.get("d")) if x.get("k") == "Ref" else None) or x.get("n") or x.get("f") or x.get("cname")) if x.get("k") in ("Ref", "Member", "Call") else None)
                     items.append("guard:complex|%s" % ",".join(sorted(i for i in ids if i)))
         walk(fn["body"], v)
         if items:
